@@ -1,7 +1,7 @@
 SPECIFICATION LawSpec
 CONSTANTS
   Parts <- PartsLaws
-  Texts <- ShapeTexts
+  Texts <- NoTexts
   Lookups <- LookupsThorough
   WithBuild = TRUE
   Obs <- ObsNone
